@@ -74,6 +74,9 @@ def build_precond(model, cfg, dp_group, mp_group):
             kw[k] = _resolve(cfg[k])
     if 'kl_clip' in cfg and cfg['kl_clip'] is None:
         kw['kl_clip'] = None
+    for k in ('inv_dtype', 'factor_dtype'):
+        if cfg.get(k):
+            kw[k] = getattr(torch, cfg[k])
     import warnings
     with warnings.catch_warnings():
         warnings.simplefilter('ignore')
@@ -196,6 +199,9 @@ def reference(cfg, history):
     kw = {k: _resolve(cfg[k]) for k in ('factor_update_steps', 'inv_update_steps', 'damping', 'factor_decay', 'lr', 'accumulation_steps',
                               'update_factors_in_hook') if k in cfg}
     kw['kl_clip'] = cfg.get('kl_clip', 0.001)
+    for k in ('inv_dtype', 'factor_dtype'):
+        if cfg.get(k):
+            kw[k] = getattr(torch, cfg[k])
     pc = KFACPreconditioner(model, compute_method='eigen', compute_eigenvalue_outer_product=False, **kw)
     out = []
     step = 0
